@@ -90,7 +90,11 @@ Inductive hwf (t : tid) : list hevent -> phase -> Prop :=
 (** committed enqueues / dequeues read off a history (newest first) *)
 Fixpoint puts_in (h : list hevent) : list (tid * val) :=
   match h with
-  | HLin t (OpPut v _ _) (ROk None) :: h' => (t, v) :: puts_in h'
+  | HLin t o r :: h' =>
+      match r, o with
+      | ROk None, OpPut v _ _ => (t, v) :: puts_in h'
+      | _, _ => puts_in h'
+      end
   | _ :: h' => puts_in h'
   | [] => []
   end.
